@@ -471,7 +471,7 @@ func c06AccountBlock(r *core.Run, sb *shapeBuilder, fn *ssa.Function, b *ssa.Bas
 		if add == nil {
 			continue // this read is not followed by an increment (e.g. length prefix, or counter-less parser)
 		}
-		key := core.FuncName(fn) + ": " + calleeName(call) + " then " + core.Expr(add.Y)
+		key := core.FuncName(fn) + ": " + calleeName(call) + " then " + core.KExpr(add.Y)
 		addend := add.Y
 		switch l {
 		case "1", "2", "4", "8":
@@ -585,7 +585,7 @@ func c06FreshInLoop(r *core.Run, ef *errFlow) {
 			if !ok {
 				continue // receiver is the enclosing object or a heap element, not a per-iteration scratch struct
 			}
-			key := core.FuncName(fn) + ": " + core.Expr(recv) + "." + f.Name() + " in loop"
+			key := core.FuncName(fn) + ": " + core.KExpr(recv) + "." + f.Name() + " in loop"
 			fresh := loop[al.Block()]
 			if !fresh {
 				// or fully re-zeroed inside the loop before the call: a Store of a zero/composite value to the alloc in the loop dominating the call
